@@ -8,15 +8,24 @@ class FakeDecoder:
     pexpect feeds every byte exactly once, in order, to this one object with final=False and passes
     on exactly what it returns."""
 
-    def __init__(self, text=True):
+    def __init__(self, text=True, holds=()):
         self.calls = []
         self.outs = []
         self.text = text
+        self.holds = list(holds)          # how many trailing bytes the k-th call keeps back (an unfinished character)
+        self.carry = 0
 
     def decode(self, b, final=False):
         k = len(self.calls)
         self.calls.append((b, final))
-        tok = chr(65 + k) * len(b)        # as long as its input, distinct per call
+        have = self.carry + len(b)
+        h = self.holds[k] if k < len(self.holds) else 0
+        if h > have:
+            h = have
+        if h < 0:
+            h = 0
+        tok = chr(65 + k) * (have - h)    # distinct per call; empty when everything is still an unfinished character
+        self.carry = h
         self.outs.append(tok)
         return tok if self.text else tok.encode()
 
@@ -38,11 +47,15 @@ class FakeEncoder:
 class EncTok:
     """the bytes an encoder produced for text `s` (opaque)"""
 
-    def __init__(self, s):
+    def __init__(self, s, part=False):
         self.s = s
+        self.part = part               # True: only a slice of the encoder's output
 
     def __len__(self):
         return len(self.s)
+
+    def __getitem__(self, k):
+        return EncTok(self.s[k], part=True)      # a part of the encoded bytes (partial write)
 
 
 class Events:
